@@ -700,11 +700,15 @@ def run(ctx) -> None:
     try:
         for name, pw in kw.REAL_FILES.items():
             path = os.path.join(RESOURCES, name)
-            k = asyncio.run(xk.load_keyring(path, pw))
+            ctx.case(("async", name), nontrivial=True, cls="real:async-load")
+            try:
+                k = asyncio.run(xk.load_keyring(path, pw))
+            except Exception as e:  # noqa: BLE001
+                ctx.fail(f"C31:real:async-load-refused:{type(e).__name__}", {"real": name, "async": True}, repr(e))
+                continue
             with open(path, "rb") as f:
                 exp = expected_from_tree(kw.parse(f.read()), pw)
             compare(ctx, {"real": name, "async": True}, exp, k, "real:async-load")
-            ctx.case(("async", name), nontrivial=True, cls="real:async-load")
     finally:
         restore_patches(saved)
     ctx.notes["real_files"] = len(names)
